@@ -192,6 +192,27 @@ class VAnyRef(VAny):
         return f"VAnyRef({self.t})"
 
 
+class VMap(V):
+    """dict whose keys are not strings and/or whose values are structured (e.g. dict[Path, list[CodeBlock]]), as two SMT
+    arrays: present(k) and value(k). Mutable object. Only `k in d`, `d[k]`, `d[k] = v` and the in-place
+    `d[k].append(x)` are modelled; everything else (iteration, len, ==, get, setdefault...) stays Unsupported."""
+
+    def __init__(self, ty, present, vals):
+        self.ty = ty
+        self.present = present
+        self.vals = vals
+
+    def clone(self, memo):
+        if id(self) in memo:
+            return memo[id(self)]
+        c = VMap(self.ty, self.present, self.vals)
+        memo[id(self)] = c
+        return c
+
+    def __repr__(self):
+        return f"VMap({self.ty.name})"
+
+
 class VDictRef(VDict):
     """Dict view of a VAnyRef: reads and writes go through the reference (so they reach the owning dict)."""
 
@@ -837,6 +858,26 @@ class _Any(Ty):
 
     def pack(self, v):
         return to_val(v)
+
+
+class MapOf(Ty):
+    """dict[K, V] as a pair of arrays (see VMap). Usable for locals (a `{}` bound to a name the contract types MapOf),
+    parameters and results; not packable (no sort of its own: it cannot be an element of a sequence or record)."""
+
+    def __init__(self, key, val):
+        self.key, self.val = key, val
+        self.name = f"Map({key.name},{val.name})"
+
+    def _sorts(self):
+        return z3.ArraySort(self.key.sort(), z3.BoolSort()), z3.ArraySort(self.key.sort(), self.val.sort())
+
+    def fresh(self, base):
+        ps, vs = self._sorts()
+        return VMap(self, z3.Const(fresh_name(base + ".has"), ps), z3.Const(fresh_name(base + ".val"), vs))
+
+    def empty(self):
+        ps, vs = self._sorts()
+        return VMap(self, z3.K(self.key.sort(), z3.BoolVal(False)), z3.Const(fresh_name("map.unset"), vs))
 
 
 class _Dict(Ty):
